@@ -28,7 +28,7 @@ else:
     scratch = "/tmp/seed-" + name
     subprocess.call(["rm", "-rf", scratch]); os.makedirs(scratch)
     subprocess.check_call("git -C /repo archive HEAD | tar -x -C %s" % scratch, shell=True)
-    subprocess.check_call("cp /repo/ppl-config.h /repo/config.h %s/ && cp -n /repo/src/*.hh %s/src/ && cp -n /repo/interfaces/C/*.h /repo/interfaces/C/*.hh %s/interfaces/C/ 2>/dev/null; true" % (scratch, scratch, scratch), shell=True)
+    subprocess.check_call("cp /repo/ppl-config.h /repo/config.h %s/ && cp -n /repo/src/*.hh %s/src/ && cp -n /repo/interfaces/C/*.h /repo/interfaces/C/*.hh %s/interfaces/C/ 2>/dev/null; cp -n /repo/interfaces/*.m4 %s/interfaces/ 2>/dev/null; true" % (scratch, scratch, scratch, scratch), shell=True)
     subprocess.check_call(["git", "apply", "--directory=" + scratch.lstrip("/"), "--unsafe-paths", os.path.join(d, "patch.diff")], cwd="/") if False else \
         subprocess.check_call(["patch", "-p1", "-s", "-d", scratch, "-i", os.path.join(d, "patch.diff")])
     env["VERIF_REPO"] = scratch
